@@ -1,27 +1,49 @@
 #!/venv/bin/python
-"""Print the catch matrix (markdown) from evidence/sensitivity.json and
-seeded/*/meta.json."""
+"""Print the catch matrix (markdown) from seeded/*/meta.json, the mutants
+listed in evidence/sensitivity.json (if present) and the sensitivity logs
+given on the command line (lines starting with SENSITIVITY)."""
 import glob
 import json
 import os
+import re
+import sys
 
 V = '/verif'
-print('| change | property | result | violation class reported |')
+rows = []
+for f in sorted(glob.glob(os.path.join(V, 'seeded', '*', 'meta.json'))):
+    m = json.load(open(f))
+    name = os.path.basename(os.path.dirname(f))
+    cls = ''
+    vl = (m.get('check') or {}).get('violation_lines') or []
+    if vl and len(vl[0]) > 1:
+        cls = vl[0][1].strip().replace('class=', '')
+    rows.append((m['property'], m.get('round', 1), name,
+                 'caught' if m.get('caught') else 'MISSED',
+                 m.get('caught_by') or m.get('miss_reason') or cls))
+by = {}
+for p, rnd, name, st, note in rows:
+    k = (p, st)
+    by[k] = by.get(k, 0) + 1
+print('| property | seeded changes | caught | missed |')
 print('|---|---|---|---|')
-sens = {}
-p = os.path.join(V, 'evidence', 'sensitivity.json')
-if os.path.exists(p):
-    for r in json.load(open(p))['results']:
-        sens[r['mutant']] = r
-for name in sorted(sens):
-    r = sens[name]
-    if r.get('kind') == 'negative':
-        print('| mutants/%s | (all nine) | %s | negative control |' % (
-            name, 'silent' if r['ok'] else 'ALARM'))
-    else:
-        d = r.get('detail', '')
-        cls = d.split('|')[0].strip()
-        print('| %s/%s | %s | %s | %s |' % (
-            'seeded' if name.startswith('seeded/') else 'mutants',
-            name.replace('seeded/', ''), r.get('property', ''),
-            'caught' if r['ok'] else 'MISSED', cls[:90]))
+for p in sorted({r[0] for r in rows}):
+    c, mi = by.get((p, 'caught'), 0), by.get((p, 'MISSED'), 0)
+    print('| %s | %d | %d | %d |' % (p, c + mi, c, mi))
+print()
+print('| seeded change | round | result | how / violation class |')
+print('|---|---|---|---|')
+for p, rnd, name, st, note in rows:
+    print('| %s | %s | %s | %s |' % (name, rnd, st, note[:150].replace('|', '/')))
+logs = sys.argv[1:]
+seen = {}
+for lg in logs:
+    for line in open(lg, errors='replace'):
+        m = re.match(r'SENSITIVITY (\S+)\s+(.*)', line)
+        if m:
+            seen[m.group(1)] = m.group(2).strip()
+if seen:
+    print()
+    print('| own mutant / negative control | result |')
+    print('|---|---|')
+    for k in sorted(seen):
+        print('| %s | %s |' % (k, seen[k][:160].replace('|', '/')))
